@@ -1,6 +1,6 @@
 """C06 -- non-critical failures are contained: the rest of the run is unaffected."""
 
-from . import common, runrules, predicates, taint
+from . import common, runrules, predicates, taint, nested
 
 
 def check(ctx, rep):
@@ -12,7 +12,10 @@ def check(ctx, rep):
         "test; reads that flow into finished-only tidying or feedback are effect-free. R06.2 the window "
         "wrapper reaches the same slot state on its normal and exceptional exits. R06.3 failed jobs are "
         "counted and release their successors (counter and candidate set range over all done tasks). R06.4 "
-        "the exception stays retrievable: the registry is never overwritten or cleared after a start.")
+        "the exception stays retrievable: the registry is never overwritten or cleared after a start. R06.5 what a "
+        "critical nested scheduler re-raises is the exception of a *critical* member only (a contained failure never "
+        "changes which exception bubbles up). R06.6 the feedback/diagnostic code reached from the run cannot raise "
+        "on a job's outcome (no first/last subscript of a possibly empty sequence, no raise).")
     rep.declined = ["equality of the timed traces of two runs (relational over executions)"]
     rep.trusted = ["T1", "T5", "cancelling or gathering an already finished task changes nothing"]
     taint.outcome_reads_masked(ctx, rep, "R06.1")
@@ -21,3 +24,5 @@ def check(ctx, rep):
     runrules.eager(ctx, rep, "R06.3e", "R06.3", "R06.3b", "R06.3g")
     predicates.is_done_table(ctx, rep, "R06.3d")
     predicates.writers_monotone(ctx, rep, "R06.4")
+    nested.critical_mapping(ctx, rep, "R06.5")
+    taint.feedback_cannot_raise(ctx, rep, "R06.6")
